@@ -223,6 +223,8 @@ func inlineRound(pkgs []*packages.Package, pinned map[string]bool, overlay map[s
 						if len(x.Results) == 1 {
 							call, _ = x.Results[0].(*ast.CallExpr)
 						}
+					case *ast.IfStmt:
+						call = guardedCall(x)
 					}
 					if call == nil {
 						return
@@ -342,8 +344,20 @@ func spliceEdit(p *packages.Package, callee, caller *ast.FuncDecl, call *ast.Cal
 	fset := p.Fset
 	hasResults := callee.Type.Results != nil && len(callee.Type.Results.List) > 0
 	_, isRet := stmt.(*ast.ReturnStmt)
+	_, isGuard := stmt.(*ast.IfStmt)
 	endStmt := stmt
+	dropLast := false
 	switch {
+	case isGuard:
+		// `if err := f(args); err != nil { return err }` in a caller whose only result is the error: the
+		// callee's error returns become the caller's, its final `return nil` falls through
+		if caller.Type.Results == nil || len(caller.Type.Results.List) != 1 || len(caller.Type.Results.List[0].Names) > 1 {
+			return inlineEdit{}, false
+		}
+		if !guardedCallee(info, callee) {
+			return inlineEdit{}, false
+		}
+		dropLast = true
 	case isRet:
 		if !hasResults {
 			return inlineEdit{}, false
@@ -509,6 +523,13 @@ func spliceEdit(p *packages.Package, callee, caller *ast.FuncDecl, call *ast.Cal
 	// the callee's own lines, after it they resume the caller's
 	bodyLine := fset.Position(callee.Body.Lbrace).Line
 	endLine := fset.Position(endStmt.End()).Line
+	if dropLast {
+		last := callee.Body.List[len(callee.Body.List)-1]
+		rb = fset.Position(last.Pos()).Offset
+		if rb <= lb {
+			return inlineEdit{}, false
+		}
+	}
 	body := string(src[lb+1 : rb])
 	text := "{" + body + "}"
 	if strings.HasPrefix(body, "\n") {
@@ -555,5 +576,130 @@ func anyNewFunc(repo string, overlay map[string][]byte, pinned map[string]bool) 
 	}
 	// other command directories under cmd/ are picked up by the full load; a new function there is
 	// found only if one of the listed directories also has one, which is enough for the library rules
+	return false
+}
+
+// guardedCall: `if err := f(args); err != nil { return err }` (no else): the call, or nil.
+func guardedCall(x *ast.IfStmt) *ast.CallExpr {
+	if x.Init == nil || x.Else != nil || len(x.Body.List) != 1 {
+		return nil
+	}
+	as, ok := x.Init.(*ast.AssignStmt)
+	if !ok || as.Tok != token.DEFINE || len(as.Lhs) != 1 || len(as.Rhs) != 1 {
+		return nil
+	}
+	id, ok := as.Lhs[0].(*ast.Ident)
+	if !ok {
+		return nil
+	}
+	call, ok := as.Rhs[0].(*ast.CallExpr)
+	if !ok {
+		return nil
+	}
+	be, ok := x.Cond.(*ast.BinaryExpr)
+	if !ok || be.Op != token.NEQ {
+		return nil
+	}
+	l, lok := be.X.(*ast.Ident)
+	rr, rok := be.Y.(*ast.Ident)
+	if !lok || !rok || l.Name != id.Name || rr.Name != "nil" {
+		return nil
+	}
+	ret, ok := x.Body.List[0].(*ast.ReturnStmt)
+	if !ok || len(ret.Results) != 1 {
+		return nil
+	}
+	if rid, ok := ret.Results[0].(*ast.Ident); !ok || rid.Name != id.Name {
+		return nil
+	}
+	return call
+}
+
+// guardedCallee: the callee's only result is an error, its last statement is `return nil`, and
+// every other return yields an expression that is visibly non-nil (an error variable under its own
+// `!= nil` test, fmt.Errorf / errors.New, a conversion to a named error type, a package-level
+// sentinel): then "return E" in the callee is "return E" in a caller that hands the error on
+// unchanged, and reaching the callee's end is falling through.
+func guardedCallee(info *types.Info, fd *ast.FuncDecl) bool {
+	if fd.Type.Results == nil || len(fd.Type.Results.List) != 1 || len(fd.Type.Results.List[0].Names) > 0 || len(fd.Body.List) == 0 {
+		return false
+	}
+	if tv, ok := info.Types[fd.Type.Results.List[0].Type]; !ok || tv.Type.String() != "error" {
+		return false
+	}
+	last, ok := fd.Body.List[len(fd.Body.List)-1].(*ast.ReturnStmt)
+	if !ok || len(last.Results) != 1 {
+		return false
+	}
+	if id, ok := last.Results[0].(*ast.Ident); !ok || id.Name != "nil" {
+		return false
+	}
+	okAll := true
+	var stack []ast.Node
+	ast.Inspect(fd.Body, func(n ast.Node) bool {
+		if n == nil {
+			stack = stack[:len(stack)-1]
+			return true
+		}
+		stack = append(stack, n)
+		if _, isLit := n.(*ast.FuncLit); isLit {
+			stack = stack[:len(stack)-1]
+			return false
+		}
+		rs, ok := n.(*ast.ReturnStmt)
+		if !ok || rs == last {
+			return true
+		}
+		if len(rs.Results) != 1 || !visiblyNonNilErr(info, rs.Results[0], stack) {
+			okAll = false
+		}
+		return true
+	})
+	return okAll
+}
+
+func visiblyNonNilErr(info *types.Info, e ast.Expr, stack []ast.Node) bool {
+	switch x := e.(type) {
+	case *ast.ParenExpr:
+		return visiblyNonNilErr(info, x.X, stack)
+	case *ast.CallExpr:
+		if tv, ok := info.Types[x.Fun]; ok && tv.IsType() {
+			_, isIface := tv.Type.Underlying().(*types.Interface)
+			_, isPtr := tv.Type.Underlying().(*types.Pointer)
+			return !isIface && !isPtr
+		}
+		if sel, ok := x.Fun.(*ast.SelectorExpr); ok {
+			if pk, ok := sel.X.(*ast.Ident); ok {
+				if pn, ok := info.Uses[pk].(*types.PkgName); ok {
+					p := pn.Imported().Path()
+					return (p == "fmt" && sel.Sel.Name == "Errorf") || (p == "errors" && sel.Sel.Name == "New")
+				}
+			}
+		}
+		return false
+	case *ast.CompositeLit:
+		return true
+	case *ast.Ident:
+		o := info.Uses[x]
+		if v, ok := o.(*types.Var); ok {
+			if v.Parent() == v.Pkg().Scope() {
+				return true // package-level sentinel
+			}
+			// a local error variable: inside the then-branch of `<it> != nil`
+			for i := len(stack) - 1; i >= 1; i-- {
+				ifs, ok := stack[i-1].(*ast.IfStmt)
+				if !ok || stack[i] != ast.Node(ifs.Body) {
+					continue
+				}
+				if be, ok := ifs.Cond.(*ast.BinaryExpr); ok && be.Op == token.NEQ {
+					if l, ok := be.X.(*ast.Ident); ok && info.Uses[l] == o {
+						if rr, ok := be.Y.(*ast.Ident); ok && rr.Name == "nil" {
+							return true
+						}
+					}
+				}
+			}
+		}
+	}
 	return false
 }
